@@ -109,10 +109,15 @@ def _detector_locks():
     return DLock, ADLock
 
 
+def _vtcp(mode, core):
+    from . import vtcp
+    return vtcp.bind(mode, core)     # the library's own TCP transport classes on a virtual network
+
+
 class Session(object):
     """One device object (sync or async) on an in-memory transport wired to a SimDevice."""
 
-    def __init__(self, mode='sync', dev=None, clock=None, default_transport_timeout_s=None, banner=b'verif', gate=None, **core_kw):
+    def __init__(self, mode='sync', dev=None, clock=None, default_transport_timeout_s=None, banner=b'verif', gate=None, net='mem', **core_kw):
         m = mods()
         self.mode = mode
         self.dev = dev or SimDevice()
@@ -125,14 +130,14 @@ class Session(object):
             self.module = m['sync']
             self.module.Lock = DL          # single-threaded sessions: a leaked lock raises instead of blocking forever
             self.module.time = self.clock
-            self.transport = MemT(self.core, gate)
+            self.transport = MemT(self.core, gate) if net == 'mem' else _vtcp(mode, self.core)
             self.device = self.module.AdbDevice(self.transport, default_transport_timeout_s=default_transport_timeout_s, banner=banner)
             self.loop = None
         else:
             self.module = m['asyn']
             self.module.Lock = ADL
             self.module.time = self.clock
-            self.transport = MemTA(self.core, gate)
+            self.transport = MemTA(self.core, gate) if net == 'mem' else _vtcp(mode, self.core)
             self.device = self.module.AdbDeviceAsync(self.transport, default_transport_timeout_s=default_transport_timeout_s, banner=banner)
             self.loop = asyncio.new_event_loop()
 
